@@ -98,7 +98,29 @@ def check_enroll_loop(P, R, key, blocks, rule="SEQ.enroll"):
                 exact = ac.has_attr("enroll_iterations") and not any(isinstance(x, ast.BinOp) for x in ac.nodes)
         R.check(ok and exact, rule + ".count", key, f"for ... in {src(loop.iter)}", "runs enroll_iterations passes", "the enrolment loop does not run exactly enroll_iterations passes", loop.lineno)
     else:
-        R.undecided(rule + ".count", key, "while-loop enrolment", "iteration count of a while loop is not modelled")
+        # a counting loop: `k = 0; while k < N: k += 1; ...` runs N passes (k advanced by exactly one, once, unconditionally)
+        t = loop.test
+        ctr = bound = None
+        if isinstance(t, ast.Compare) and len(t.ops) == 1:
+            if isinstance(t.ops[0], ast.Lt) and isinstance(t.left, ast.Name):
+                ctr, bound = t.left.id, t.comparators[0]
+            elif isinstance(t.ops[0], ast.Gt) and isinstance(t.comparators[0], ast.Name):
+                ctr, bound = t.comparators[0].id, t.left
+        decided = False
+        if ctr is not None:
+            incs = [st for st in walk_no_nested(loop) if isinstance(st, ast.AugAssign) and isinstance(st.target, ast.Name) and st.target.id == ctr]
+            other = [d for d in du.all_defs(ctr) if _inside(d.stmt, loop) and d.stmt not in incs]
+            init = [d for d in du.reaching(loop, ctr) if not _inside(d.stmt, loop)]
+            one_inc = len(incs) == 1 and incs[0] in loop.body and isinstance(incs[0].op, ast.Add) and isinstance(incs[0].value, ast.Constant) and incs[0].value.value == 1
+            zero = len(init) == 1 and init[0].how == "assign" and isinstance(init[0].value, ast.Constant) and init[0].value.value == 0 and not isinstance(init[0].value.value, bool)
+            exits = [x for x in walk_no_nested(loop) if isinstance(x, (ast.Break, ast.Continue, ast.Return))]
+            if one_inc and zero and not other and not exits:
+                bc = cone(du, bound, loop, interproc=False)
+                exact = bc.has_attr("enroll_iterations") and not any(isinstance(x, ast.BinOp) for x in bc.nodes)
+                R.check(exact, rule + ".count", key, f"while {src(t)} with {ctr} += 1", "runs enroll_iterations passes", "the enrolment loop does not run exactly enroll_iterations passes", loop.lineno)
+                decided = True
+        if not decided:
+            R.undecided(rule + ".count", key, "while-loop enrolment", "iteration count of this while loop is not modelled (not the counting form `k = 0; while k < N: k += 1`)")
     in_loop = [(st, b, c, t) for st, b, c, t in ups if _inside(st, loop)]
     for b in blocks:
         mine = [x for x in in_loop if x[1] == b]
